@@ -1213,3 +1213,6 @@ fn test() {
         assert_eq!(expr.execute_one(ctx), false);
     }
 }
+
+#[cfg(kani)]
+pub(crate) mod verif_kani;
